@@ -393,7 +393,10 @@ class RecordRun:
     def _collect(self):
         if self.consumer_mode:
             # FileConsumer.write is called once per record (empty records included)
-            self.got = [self._ident(b, k) for k, b in enumerate(self.sink)]
+            # (a consumer expecting no bytes at all is sent one empty write by connectConsumer itself "to kick it into
+            # shutdown": that write is no record)
+            sink = self.sink[1:] if (self.expected_total == 0 and self.sink and self.sink[0] == b"") else self.sink
+            self.got = [self._ident(b, k) for k, b in enumerate(sink)]
 
     def finish(self):
         self._resume()
